@@ -231,6 +231,8 @@ func (s *Sess) RemovePDR(req *ie.IE) ([]report.USAReport, error) {
 	}
 
 	delete(s.PDRIDs, pdrid)
+	// packets still buffered for this PDR must not be released under a later PDR that reuses the id
+	delete(s.q, pdrid)
 
 	var usars []report.USAReport
 	for urrid := range pdrInfo.RelatedURRIDs {
